@@ -13,6 +13,7 @@ from sx import core
 from sx.core import FIN, NAN, PINF, NINF, lift, b_and, b_or, b_not, b_implies
 from sx.runner import Claim
 from .base import Harness, isnan, isfin, all_of, any_of, same_value, kindname
+from .oracles import selection_rules
 
 F_KINDS = (FIN, NAN, PINF, NINF)
 V_KINDS = (FIN, NAN, PINF)
@@ -101,39 +102,7 @@ class Filt(Harness):
             claims.append(Claim("C03", clause, cond, sig=sig))
 
         def rules(S, tag):
-            """The selection rule of the statement applied to the index set S."""
-            feas = {i: b_and(vs[i] <= tol, not isnan(fs[i])) for i in S}
-            anyfeas = any_of(feas.values())
-            C(f"{tag}feasible_first_min_objective",
-              b_implies(anyfeas, b_and(r in S and feas.get(r, False),
-                                       all_of(b_implies(feas[i], fs[r] <= fs[i]) for i in S))))
-            C(f"{tag}feasible_tie_least_violation",
-              b_implies(anyfeas, all_of(b_implies(b_and(feas[i], fs[i] == fs[r]), vs[r] <= vs[i]) for i in S)))
-            # no point within tolerance at all, and some merit value defined
-            nofeas = all_of(b_not(vs[i] <= tol) for i in S)
-            D = [i for i in S if not isnan(fs[i]) and isfin(vs[i])]
-            if D:
-                merit = {i: fs[i] + pen * vs[i] for i in D}
-                rin = r in D
-                C(f"{tag}least_merit",
-                  b_implies(nofeas, b_and(rin, all_of(merit[r] <= merit[i] for i in D) if rin else False)))
-                if rin:
-                    C(f"{tag}merit_tie_least_violation_then_objective",
-                      b_implies(nofeas, all_of(
-                          b_implies(merit[i] == merit[r],
-                                    b_and(vs[r] <= vs[i], b_implies(vs[i] == vs[r], fs[r] <= fs[i])))
-                          for i in D)))
-                    C(f"{tag}not_dominated",
-                      b_implies(nofeas, all_of(
-                          b_not(b_and(fs[i] <= fs[r], vs[i] <= vs[r], b_or(fs[i] < fs[r], vs[i] < vs[r])))
-                          for i in D)))
-            # NaN never preferred to a defined value
-            if all(isnan(vs[i]) for i in S) and any(not isnan(fs[i]) for i in S):
-                C(f"{tag}nan_violation_everywhere_least_objective",
-                  b_and(not isnan(fs[r]), all_of(fs[r] <= fs[i] for i in S if not isnan(fs[i]))))
-            if all(isnan(fs[i]) for i in S) and any(not isnan(vs[i]) for i in S):
-                C(f"{tag}nan_objective_everywhere_least_violation",
-                  b_and(not isnan(vs[r]), all_of(vs[r] <= vs[i] for i in S if not isnan(vs[i]))))
+            selection_rules(C, fs, vs, pen, tol, r, S, tag)
 
         S = o["retained"]
         if unbounded:
